@@ -457,22 +457,24 @@ Lemma any_to_string_formats_gen : forall v s,
   conv_to TString v = Ok (VStr (if is_null v then [] else s)).
 Proof.
   intros v s Hs.
-  destruct v; cbn in Hs; try discriminate Hs.
+  destruct v; cbn [conv_to_string] in Hs; try discriminate Hs.
   - reflexivity.
   - injection Hs as Hs. subst s. reflexivity.
   - cbn [conv_to reflect_convert is_basic_number is_null]. cbn [conv_to_string].
     destruct (is_nan d); [discriminate Hs|]. injection Hs as Hs. subst s. reflexivity.
   - injection Hs as Hs. subst s. reflexivity.
+  - cbn [conv_to reflect_convert is_basic_number is_null conv_to_string]. rewrite Hs. reflexivity.
+  - cbn [conv_to reflect_convert is_basic_number is_null conv_to_string]. rewrite Hs. reflexivity.
   - injection Hs as Hs. subst s. reflexivity.
+  - reflexivity.
 Qed.
 
 Lemma any_to_string_formats :
-  (forall v s, v <> VNull -> conv_to_string v = Some s -> conv_to TString v = Ok (VStr s)) /\
+  (forall v s, is_null v = false -> conv_to_string v = Some s -> conv_to TString v = Ok (VStr s)) /\
   conv_to TString VNull = Ok (VStr []).
 Proof.
   split; [|reflexivity].
-  intros v s Hn Hs. rewrite (any_to_string_formats_gen v s Hs).
-  destruct v; try reflexivity; try discriminate Hs. exfalso. apply Hn. reflexivity.
+  intros v s Hn Hs. rewrite (any_to_string_formats_gen v s Hs). rewrite Hn. reflexivity.
 Qed.
 
 Lemma string_to_string : forall s, conv_to TString (VStr s) = Ok (VStr s).
